@@ -175,6 +175,64 @@ Lemma abs_pend_of (rm : list gentry) :
   abs_pend (RP.pend_of rm) = map Some (map (fun e => idn (RM.ptr e)) rm).
 Proof. unfold abs_pend, RP.pend_of. rewrite !map_map. reflexivity. Qed.
 
+
+(* when no destructor allocates, nothing is allocated behind the program's back (structural) *)
+Definition NS (s : st) : Prop := forall x, spawns s x = [].
+Definition Keep (s s' : st) : Prop := info s' = info s /\ spawns s' = spawns s /\ ids s' = ids s.
+
+Lemma Keep_refl s : Keep s s. Proof. repeat split. Qed.
+Lemma Keep_trans a b c : Keep a b -> Keep b c -> Keep a c.
+Proof. intros [A1 [A2 A3]] [B1 [B2 B3]]. repeat split; congruence. Qed.
+Lemma Keep_NS s s' : Keep s s' -> NS s -> NS s'.
+Proof. intros [_ [H _]] N x. rewrite H. apply N. Qed.
+
+Lemma keep_gc_rem r fin s p :
+  (forall s o, NS s -> Keep s (fin s o)) -> NS s -> Keep s (gc_rem r fin s p).
+Proof.
+  intros Hf N. unfold gc_rem. destruct (negb (running s)); [apply Keep_refl|].
+  assert (Hm : forall t, Keep s t -> Keep s (set_mitems (mitems_rule (nitems t)) t)) by (intros t K; exact K).
+  apply Hm.
+  destruct (in_pend s p).
+  - destruct r.
+    + apply (Keep_trans s (set_pend (null_pend p (pend s)) s)); [repeat split | apply Hf; exact N].
+    + match goal with |- context [if ?c then _ else _] => destruct c end; [|repeat split].
+      match goal with |- Keep s (fin ?t p) => apply (Keep_trans s t); [repeat split | apply Hf; exact N] end.
+  - destruct (in_reg s p); [|apply Keep_refl].
+    apply (Keep_trans s (set_reg (rem_reg p (reg s)) s)); [repeat split | apply Hf; exact N].
+Qed.
+
+Lemma keep_finalise r w dd f : forall s o, NS s -> Keep s (finalise r w dd f s o).
+Proof.
+  induction f as [|f IH]; intros s o N; cbn [finalise]; [repeat split|].
+  change (spawns (add_log (LFin o) s) o) with (spawns s o). rewrite (N o). simpl fold_left.
+  destruct (owned (add_log (LFin o) s) o) as [p|]; [|repeat split].
+  assert (K : Keep s (gc_rem r (finalise r w dd f) (add_log (LFin o) s) p)).
+  { apply (Keep_trans s (add_log (LFin o) s)); [repeat split|]. apply keep_gc_rem; [exact IH | exact N]. }
+  exact K.
+Qed.
+
+Lemma keep_sweep_loop w fin k : (forall s o, NS s -> Keep s (fin s o)) ->
+  forall i s, NS s -> Keep s (sweep_loop w fin k i s).
+Proof.
+  intros Hf. induction k as [|k IH]; intros i s N; cbn [sweep_loop]; [apply Keep_refl|].
+  destruct (nth i (pend s) None) as [o|]; [|apply IH; exact N].
+  set (s0 := if w then set_pend (null_pend o (pend s)) s else s).
+  assert (K0 : Keep s s0) by (unfold s0; destruct w; repeat split).
+  assert (K1 : Keep s (fin s0 o)) by (apply (Keep_trans s s0); [exact K0 | apply Hf; apply (Keep_NS s); assumption]).
+  apply (Keep_trans s (fin s0 o)); [exact K1|]. apply IH. apply (Keep_NS s); assumption.
+Qed.
+
+Lemma keep_sweep w fin order marks s : (forall s o, NS s -> Keep s (fin s o)) -> NS s -> Keep s (sweep w fin order marks s).
+Proof.
+  intros Hf N. unfold sweep.
+  match goal with |- Keep s (set_pend [] (sweep_loop w fin ?k 0 ?s1)) =>
+    assert (K : Keep s (sweep_loop w fin k 0 s1)) by (apply (Keep_trans s s1); [repeat split | apply keep_sweep_loop; [exact Hf | exact N]]) end.
+  exact K.
+Qed.
+
+Lemma keep_fin_top s o : NS s -> Keep s (fin_top true true true s o).
+Proof. intros N. unfold fin_top. apply keep_finalise. exact N. Qed.
+
 (* ------------------------------------------------------------------ 2. the relation *)
 Section Glue.
   Variable hashf : N -> N.
